@@ -481,7 +481,7 @@ def rules(ck, P):
                 continue
             e = table.get(s.key)
             if e is not None:
-                lapsed = validate_witness(P, e, s)
+                lapsed = validate_witness(P, e, s) or census.entry_lapsed(e, s)
                 if lapsed is None:
                     used.add(s.key)
                     stats["reviewed"] += 1
